@@ -42,6 +42,15 @@ func cacheSpecs() []Spec {
 		{Kind: KExpr, Func: "Cache.processItems", Match: "i.Cost == 0 && c.cost != nil && i.flag != itemDelete", Lean: "useCostFn", Out: o},
 		{Kind: KExpr, Func: "Cache.processItems", Match: "!c.ignoreInternalCost", Lean: "addInternalCost", Out: o},
 		{Kind: KExpr, Func: "Metrics.add", Match: "(hash % 25) * 10", Lean: "metricStripe", Out: o},
+		// atomic sections the model treats as one step
+		{Kind: KLockShape, Func: "lockedMap.Update", Match: "m.Lock", Lean: "atomicUpdate", Out: o},
+		{Kind: KLockShape, Func: "lockedMap.Del", Match: "m.Lock", Lean: "atomicDel", Out: o},
+		{Kind: KLockShape, Func: "lockedMap.DelExpired", Match: "m.Lock", Lean: "atomicDelExpired", Out: o},
+		{Kind: KLockShape, Func: "lockedMap.Clear", Match: "m.Lock", Lean: "atomicShardClear", Out: o},
+		{Kind: KLockShape, Func: "lockedMap.Expiration", Match: "m.RLock", Lean: "atomicExpiration", Out: o},
+		{Kind: KLockShape, Func: "lockedMap.get", Match: "m.RLock-read", Lean: "atomicGetRead", Out: o},
+		{Kind: KLockShape, Func: "lockedMap.Set", Match: "m.Lock", Nth: 1, Lean: "atomicSet", Out: o},
+		{Kind: KLockShape, Func: "defaultPolicy.Add", Match: "p.Lock", Lean: "atomicPolicyAdd", Out: o},
 		{Kind: KConst, Match: "itemNew", Lean: "itemNew", Out: o},
 		{Kind: KConst, Match: "itemDelete", Lean: "itemDelete", Out: o},
 		{Kind: KConst, Match: "itemUpdate", Lean: "itemUpdate", Out: o},
